@@ -126,6 +126,49 @@ def run(ctx):
                     ctx.report(r_after, "%s:%s" % (kind, idx), "%s removes the %s (StoreFor::remove, line %s) and can return successfully without consulting %s on that path: annotations that depend on the removed %s survive with a dangling reference" % (fname, kind, b.blocks[rb]["t"].get("line"), idx, kind), b.file, b.blocks[rb]["t"].get("line"))
     ctx.floor(r_after, n_after, 2, "removal sites x dependency indices")
 
+    # ---------------- REMOVES: once the item is resolved, a successful return means it was removed
+    r_rem = ctx.rule("C02.REMOVES", "remove_key / remove_data: from the point where the item's own handle has been resolved (the Some edge of its to_handle) every path to a successful return passes through the removal of the item itself (StoreFor::remove)")
+    n_rem = 0
+    for htype, (kind, (fname, sty, tr)) in ROUTINES.items():
+        if tr:
+            continue
+        try:
+            b = prog.one(r"^annotationstore::AnnotationStore::%s$" % fname)
+        except Exception as e:
+            ctx.anchor_missing(r_rem, str(e))
+            continue
+        ths = [bi for bi, t in b.calls() if (mirq.callee_of(t)[0] or "") == "store::Request::to_handle" and not b.blocks[bi].get("cleanup")]
+        removals = [bi for bi, t in b.calls() if (mirq.callee_of(t)[0] or "") == "store::StoreFor::remove" and not b.blocks[bi].get("cleanup")]
+        errs = set(bi for bi, t in b.calls() if (mirq.callee_of(t)[0] or "").endswith("FromResidual::from_residual"))
+        rets = [bi for bi, blk in enumerate(b.blocks) if blk["t"]["t"] == "return"]
+        if not ths or not removals:
+            ctx.anchor_missing(r_rem, "to_handle / StoreFor::remove in %s" % fname)
+            continue
+        last_th = max(ths, key=lambda x: b.blocks[x]["t"].get("line") or 0)
+        sw = b.blocks[last_th]["t"].get("target")
+        swt = b.blocks[sw]["t"] if sw is not None else None
+        some_bb = None
+        if swt and swt["t"] == "switch":
+            for v_, tg_ in swt["targets"]:
+                if v_ == 1:
+                    some_bb = tg_
+        if some_bb is None:
+            ctx.anchor_missing(r_rem, "match on the result of the item's to_handle in %s" % fname)
+            continue
+        # the item's own removal: the StoreFor::remove calls dominated by the Some edge; all of them together must be unavoidable
+        own = set(x for x in removals if b.dominates(some_bb, x))
+        n_rem += 1
+        avoid = own | errs
+        leak = None
+        for rt in rets:
+            if some_bb not in avoid and (some_bb == rt or b.can_reach(some_bb, rt, avoid=avoid)):
+                leak = rt
+                break
+        r_rem.hit(fname, sample={"routine": fname, "resolved_at_block": some_bb, "removal_blocks": sorted(own), "bypass": leak is not None})
+        if leak is not None or not own:
+            ctx.report(r_rem, fname, "%s can return successfully after the %s has been resolved without having removed it (a path from line %s to the return bypasses StoreFor::remove): the item survives a removal that reported success, and what was cleaned up around it (its key, its index rows) now dangles" % (fname, kind, b.blocks[last_th]["t"].get("line")), b.file, b.blocks[last_th]["t"].get("line"))
+    ctx.floor(r_rem, n_rem, 2, "removal routines")
+
     # ---------------- DEDUP
     r_dedup = ctx.rule("C02.DEDUP", "a cascade that gathers annotation handles from several index rows removes each annotation once (a set), or tolerates repeats (presence test before each removal)")
     n_dd = 0
